@@ -140,6 +140,12 @@ def run(ctx):
             if r["status"] in ("livelock", "wallclock"):
                 ctx.known("F8", k["what_fails"])
             ctx.cov["input_distribution"]["F8_replay_status"] = r["status"]
+        if k.get("status") == "known" and k.get("property") == "C05" and k.get("id") == "F29":
+            w = json.load(open(os.path.join(core.ROOT, k["witness"])))
+            r = simcommon.run_worlds([w], jobs=1, chunk=1)[0]
+            if r["status"] == "exception":
+                ctx.known("F29", k["what_fails"])
+            ctx.cov["input_distribution"]["F29_replay_status"] = r["status"]
         if k.get("status") == "known" and k.get("property") == "C05" and k.get("id") == "F20":
             w = json.load(open(os.path.join(core.ROOT, k["witness"])))
             r = simcommon.run_worlds([w], jobs=1, chunk=1)[0]
